@@ -494,6 +494,9 @@ class Gen:
         kinds = ['setreg'] * 4 + ['action'] * 5 + ['assign'] * 3 + ['print'] * 3 + ['wait']
         if depth > 0:
             kinds += ['if'] * 2 + ['repeat'] * 2
+        if self.locals is None and depth >= 2 and depth < self.max_depth and \
+                self.feature('nested_define', False):
+            kinds += ['define'] * 2
         if self.locals is None and self.loop_depth == 0 and depth == self.max_depth:
             # top level only
             kinds += ['define'] * 2 + ['macro', 'units']
